@@ -1360,6 +1360,14 @@ class Tensor:
         else:
             _grad = np.full_like(self.data, fill_value=1.0)
 
+        if _grad.strides != self.data.strides and self._base is None:
+            # The gradient of a tensor that owns its memory must have the memory
+            # layout of its data (see `Operation.backward`): its views obtain their
+            # gradients by replaying their view-ops on this array.
+            tmp = np.empty_like(self.data)
+            tmp[...] = _grad
+            _grad = tmp
+
         self._grad = _grad
 
         if self.creator is not None:
